@@ -31,7 +31,8 @@ model_class('Engine', fields={
     'global_time': 'Real', 'emit_step': 'Real', 'global_time_precision': 'Opt[Int]', 'progress_bar': 'Bool',
     'display_info': 'Bool',
     'front': 'Map[Path,Front]', 'process_paths': 'Map[Path,Ref[Process]]', 'state': 'Ref[Store]',
-    '_step_paths': 'Map[Path,Ref[Process]]', '_step_graph': 'Ref[_StepGraph]'},
+    '_step_paths': 'Map[Path,Ref[Process]]', '_step_graph': 'Ref[_StepGraph]',
+    'processes': 'Tree', 'steps': 'Tree', 'topology': 'Tree', 'flow': 'Tree'},
     ghost={'g_version': 'Int', 'g_emits': 'Seq[Real]', 'g_steps_run': 'Int', 'g_views_valid': 'Bool'})
 model_class('_StepGraph', fields={'_sequential_steps': 'Seq[Path]'})
 
@@ -206,3 +207,34 @@ contract(E + 'Engine._send_updates', props=['C01', 'C05', 'C12'],
              'self.g_views_valid == (old(self.g_views_valid) and not view_expire)']}},
          ghost={'view_expire_update = self.apply_update(': {'after': ['update.g_at = self.global_time']},
                 'self.state.build_topology_views()': {'after': ['self.g_views_valid = True']}})
+
+
+# ---- C10: bookkeeping after deletions ------------------------------------------------------------------------------
+def PREFIX(sub, p):
+    return "(len(%s) <= len(%s) and forall_range(0, len(%s), lambda j: %s[j] == %s[j]))" % (sub, p, sub, p, sub)
+
+external(E + '_StepGraph.remove', types={'path': 'Path'}, modifies=['self._sequential_steps'],
+         why_trusted='networkx graph surgery; the step graph is bounded-checked under C05/C10')
+
+contract(E + 'Engine._delete_path', props=['C10'],
+         types={'deletion': 'Path', 'path': 'Path', 'p': 'Path', 'j': 'Int'},
+         requires=['dicts_along(self.processes, deletion)', 'dicts_along(self.steps, deletion)',
+                   'dicts_along(self.topology, deletion)', 'dicts_along(self.flow, deletion)'],
+         modifies=['self.processes', 'self.steps', 'self.topology', 'self.flow', 'self.process_paths', 'self._step_paths',
+                   '_StepGraph._sequential_steps'],
+         ensures=[
+             # the published composite loses exactly the entry at the deleted path
+             'self.processes == tdel(old(self.processes), deletion)', 'self.steps == tdel(old(self.steps), deletion)',
+             'self.topology == tdel(old(self.topology), deletion)', 'self.flow == tdel(old(self.flow), deletion)',
+             # the scheduler forgets all and only the processes / steps below the deleted path
+             "forall(lambda p: has(self.process_paths, p) == (has(old(self.process_paths), p) and not %s))" % PREFIX('deletion', 'p'),
+             "forall(lambda p: implies(has(self.process_paths, p), lookup(self.process_paths, p) == lookup(old(self.process_paths), p)))",
+             "forall(lambda p: has(self._step_paths, p) == (has(old(self._step_paths), p) and not %s))" % PREFIX('deletion', 'p'),
+             "forall(lambda p: implies(has(self._step_paths, p), lookup(self._step_paths, p) == lookup(old(self._step_paths), p)))"],
+         loops={
+             0: {'invariant': [
+                 "forall(lambda p: has(self.process_paths, p) == (has(entry(self.process_paths), p) and not ((p in _done) and %s)))" % PREFIX('deletion', 'p'),
+                 "forall(lambda p: implies(has(self.process_paths, p), lookup(self.process_paths, p) == lookup(entry(self.process_paths), p)))"]},
+             1: {'invariant': [
+                 "forall(lambda p: has(self._step_paths, p) == (has(entry(self._step_paths), p) and not ((p in _done) and %s)))" % PREFIX('deletion', 'p'),
+                 "forall(lambda p: implies(has(self._step_paths, p), lookup(self._step_paths, p) == lookup(entry(self._step_paths), p)))"]}})
